@@ -6,7 +6,7 @@ import SqlObjVerif.Model.DrvUtil
   `reset` | `save` | `load` | `link t a b` (history only: add a link row) | `forget c id` (drop the instance)
   `op <inj> setattr c id col v` | `op <inj> set c id <kw> <extras>` | `op <inj> sync c id`
   `op <inj> create c <missing 0|1> <kw> <extras>` | `op <inj> createChild c <pkw> <ckw>`
-  `op <inj> createChain <c:kw>… (leaf first)` | `op <inj> destroy c id`       inj = `-` | `<k>o` | `<k>i`; kw = `col=v,…|-`; v = `bad|N|<int>`;
+  `op <inj> createChain <c:kw>… (leaf first)` | `op <inj> destroy c id`       inj = `-` | `<k>o` | `<k>i`; kw = `col=v,…|-`; v = `bad|bad2~<int>|N|<int>`;
                                 extras = `-` or `,`-joined `u` `o` `b` `f<col>=<v>`
   Answer to `op`: `<ok|Err> # <statement log> # <changes> <syn|gap> # <dump>` (`syn`: `AtomicSyn` holds before the call). -/
 open SqlObjVerif SqlObjVerif.Fail SqlObjVerif.DrvUtil
@@ -47,7 +47,9 @@ def parseCls (t : String) : Cls :=
   | _ => { cols := [] }
 
 def parseIn (t : String) : In :=
-  if t == "bad" then .bad else if t == "N" then .ok none else .ok (t.toInt?)
+  if t == "bad" then .bad else if t == "N" then .ok none
+  else if t.startsWith "bad2~" then .bad2 ((t.drop 5).toString.toInt?)
+  else .ok (t.toInt?)
 
 def parseKw (t : String) : List (Nat × In) :=
   if t == "-" then [] else
